@@ -9,6 +9,9 @@ C16-d  automatic mode: zck_end_chunk is reached only with dc_data_size >= chunk_
        independent of how the content was split into calls); no local caching dc_data_size is used after a
        call that changes it without being recomputed (R6.stale-cache).
 C16-e  comp_init: chunk_auto_min <= chunk_auto_max (shared with C01-f).
+C16-h  comp_init: chunk_auto_max <= chunk_max_size at every automatic-mode success exit (linear path constraints,
+       Fourier-Motzkin), given the setter invariant chunk_min_size == 0 or chunk_min_size <= chunk_max_size,
+       which is checked on the setters.
 Declined: independence from write segmentation as a whole, equality of chunks across edits, zstd determinism.
 """
 from ..flow import M1, NEG, Z, P1, POS, NONNEG
@@ -203,6 +206,9 @@ def run(ctx):
                                  % derived), zw.file, zw.line, config=config)
         # ---- e ordering fact at comp_init exits
         auto_bounds(ck, prog, config, 'C16-e')
+        # ---- h effective maximum never above the configured one
+        from ..rules import bounds
+        bounds.check_bounds(ck, prog, config, 'C16-h')
 
 
 def finishers(prog):
@@ -364,7 +370,7 @@ def auto_bounds(ck, prog, config, clause):
 CLAIM = {
     'technique': 'typestate on the chunk-finishing paths, call-graph deny-list, guard facts + linear form of the '
                  'boundary test, stale-cache dataflow with transitive mod sets, minimal relational (order) domain on '
-                 'the chunk size bounds, dominance of the rolling-hash loop over every queueing call in automatic mode, zero-length contract closure over the write path, extended order facts (chunk_min_size <= chunk_auto_max)',
+                 'the chunk size bounds, dominance of the rolling-hash loop over every queueing call in automatic mode, zero-length contract closure over the write path, extended order facts (chunk_min_size <= chunk_auto_max), linear path constraints with Fourier-Motzkin elimination for chunk_auto_max <= chunk_max_size and the setter invariant',
     'text': 'static analysis: decides C16-a,b,d,e (mechanism) - the rolling hash is reset exactly on chunk-finishing '
             'paths; nothing below the write API reads clocks, randomness, pids or the environment; automatic chunk '
             'ends respect the minimum, the maximum-size test is on the bytes of the chunk so far and no cached copy '
@@ -374,6 +380,22 @@ CLAIM = {
 }
 
 MUTANTS = [
+    {'id': 'm16h', 'desc': 'conflict resolved by raising the automatic maximum (seeded c16r4)', 'file': 'src/lib/comp/comp.c',
+     'old': """            if(zck->chunk_auto_max < zck->chunk_min_size)
+                zck->chunk_auto_max = zck->chunk_min_size;""",
+     'new': """            if(zck->chunk_auto_max < zck->chunk_auto_min)
+                zck->chunk_auto_max = zck->chunk_auto_min;""", 'expect': 'R9.bounds comp_init'},
+    {'id': 'm16i', 'desc': 'clamp by the configured maximum dropped', 'file': 'src/lib/comp/comp.c',
+     'old': """            if(zck->chunk_auto_max > zck->chunk_max_size)
+                zck->chunk_auto_max = zck->chunk_max_size;""", 'new': '', 'expect': 'R9.bounds comp_init'},
+    {'id': 'm16j', 'desc': 'minimum setter no longer compares with the maximum', 'file': 'src/lib/comp/comp.c',
+     'old': """        if(value > zck->chunk_max_size) {""", 'new': """        if(value > CHUNK_DEFAULT_MAX) {""",
+     'expect': 'R9.bounds'},
+    {'id': 'n16h', 'desc': 'clamp written with the operands swapped', 'file': 'src/lib/comp/comp.c',
+     'old': """            if(zck->chunk_auto_max > zck->chunk_max_size)
+                zck->chunk_auto_max = zck->chunk_max_size;""",
+     'new': """            if(zck->chunk_max_size < zck->chunk_auto_max)
+                zck->chunk_auto_max = zck->chunk_max_size;""", 'expect': None},
     {'id': 'm16z', 'desc': 'comp_write no longer returns early for an empty piece (seeded c16r2)',
      'file': 'src/lib/comp/comp.c',
      'old': """    VALIDATE_WRITE_INT(zck);
